@@ -37,6 +37,23 @@ def main():
                 job = json.load(f)
             os.makedirs(os.path.join(job['cwd'], 'tmp'), exist_ok=True)
             os.chdir(job['cwd'])
+            if job.get('decoy_spec'):
+                # history of this process: another revision of the language (same id and
+                # version) is loaded and used first
+                try:
+                    from maltoolbox.language import LanguageGraph, LanguageClassesFactory
+                    from maltoolbox.model import Model
+                    from maltoolbox.attackgraph import AttackGraph
+                    with open(job['decoy_spec']) as f:
+                        dspec = json.load(f)
+                    dlg = LanguageGraph(dspec)
+                    dfac = LanguageClassesFactory(dlg)
+                    dm = Model('decoy', dfac)
+                    t = next(a['name'] for a in dspec['assets'] if not a.get('isAbstract'))
+                    dm.add_asset(getattr(dfac.ns, t)(name='d1'))
+                    AttackGraph(dlg, dm)
+                except Exception:       # noqa: BLE001  the decoy is history, not the subject
+                    pass
             try:
                 if job['via'] == 'api':
                     from maltoolbox.language import LanguageGraph, LanguageClassesFactory
